@@ -15,6 +15,12 @@ CHECKS = {
  'C18': dict(level='exploration', engine='simworld', technique='property-based testing: generated execution-tree populations and policy settings, invariant oracle from a reference eligibility model (Hypothesis)',
    text='Generated populations of execution trees (states, ages with ties, projects, nesting with tasks/actions/sub-executions) and generated settings (older_than incl. unset, max_finished_executions, batch_size, ignored_states) are evaluated once by the real run_execution_expiration_policy under a virtual clock; the surviving rows are compared against a reference model as tie-robust invariants (only eligible roots deleted, expired ones gone, at most max_finished kept, no newer deleted while older kept, every tree complete or completely gone, evaluation terminates within a fetch budget and raises nothing).',
    design='3 C18', note='rows inserted through the DB api with forged timestamps; SQLite FK cascade stands in for the production RDBMS; one evaluation per case'),
+ 'C02': dict(level='exploration', technique='metamorphic property-based testing: the same generated (program, input, outcomes) run under generated and exhaustively enumerated (DFS, small programs) schedules, cache eviction and id orders; canonical final rows must coincide',
+   text='For every generated program inside the property domain (deterministic outcomes, non-conflicting publishes, confluent according to the independent reference semantics) the real engine is run under FIFO/LIFO/priority/shuffled/drawn schedules, with the specification caches dropped before every event, under different id orders, and - for programs of up to 4 tasks - under every choice sequence by depth-first re-execution up to a cap; the canonical final rows (states, published variables, outputs, accepted action results) of all runs must be identical. Differences are reported with both schedules.',
+   design='3 C02', note=ASSUME + '; the domain restriction (singleton reference outcome set) relies on mv/ref/wfsem.py; known finding join-retrigger excluded by shape and re-created by a sub-check'),
+ 'C04': dict(level='exploration', technique='property-based testing with a trace (history) oracle: world snapshot after every engine event of generated fork/join and requires programs under generated schedules',
+   text='Every generated run is observed after each engine event; the oracle recomputes from the definition (reference guard evaluator, not the next_tasks column) which inbound instances completed and routed to each join before the event in which the join first became RUNNING, requires the join cardinality to be met at that point, at most one entry into RUNNING (snapshot diff and compare-and-swap log), one action execution and one task execution per join, ERROR instead of WAITING when the number can no longer be reached; for reverse workflows every task is created only after each required task is SUCCESS, only inside the target closure, once.',
+   design='3 C04', note=ASSUME + '; known finding join-retrigger excluded by shape (counted) and re-created by a dedicated sub-check that prints KNOWN-FINDING'),
 }
 NA = []
 def main():
